@@ -857,10 +857,48 @@ def report(rep, case, problems, driver):
                   found, {"kind": "ranker-" + p0["clause"], "cls": case["cls"]})
 
 
+def failed_reset_probe(rep, rng):
+    """'keeps its direction until reset, when it draws a new one scaled to the archive's measure ranges': a reset() that RAISES (the bounds
+    of an empty ProximityArchive are undefined, e.g. right after clear()) is no reset -- the direction stays what it was, and the next
+    successful reset gives the direction an undisturbed twin (same seed) gets from its next reset"""
+    import ribs.emitters.rankers as R
+    from ribs.archives import ProximityArchive
+    for cls in (R.RandomDirectionRanker, R.TwoStageRandomDirectionRanker):
+        sd = rng.randrange(1 << 30)
+        a = ProximityArchive(solution_dim=1, measure_dim=2, k_neighbors=1, novelty_threshold=0.1)
+        a.add([[0.0], [1.0]], [0.0, 1.0], [[0.0, 0.0], [2.0, 1.0]])
+        r, twin = cls(seed=sd), cls(seed=sd)
+        r.reset(None, a)
+        twin.reset(None, a)
+        d1 = np.array(r.target_measure_dir, copy=True)
+        a.clear()
+        rep.count("failed_reset_probes")
+        try:
+            r.reset(None, a)
+            continue        # an implementation that defines bounds for the empty archive: nothing to observe
+        except Exception:  # noqa
+            pass
+        kept = np.array(r.target_measure_dir, copy=True)
+        a.add([[0.0], [1.0]], [0.0, 1.0], [[0.0, 0.0], [2.0, 1.0]])
+        r.reset(None, a)
+        twin.reset(None, a)
+        problem = None
+        if not np.array_equal(kept, d1):
+            problem = "after a reset() that raised (empty ProximityArchive) the direction changed from %s to %s" % (d1.tolist(), kept.tolist())
+        elif not np.array_equal(np.asarray(r.target_measure_dir), np.asarray(twin.target_measure_dir)):
+            problem = ("after a reset() that raised, the next successful reset gives %s, an undisturbed twin (same seed, same archive) gives %s"
+                       % (np.asarray(r.target_measure_dir).tolist(), np.asarray(twin.target_measure_dir).tolist()))
+        if problem:
+            rep.violation("%s: %s" % (cls.__name__, problem), {"kind": "property", "broken": "a random-direction ranker keeps its direction until reset",
+                                                              "ranker": cls.__name__, "seed": sd}, True, {"kind": "failed-reset-not-atomic"})
+            return
+
+
 def check(rep, tier, seed, driver):
     py2v_rank.report(rep)
     import ribs.emitters.rankers as R
     rng = random.Random(seed)
+    failed_reset_probe(rep, random.Random(seed + 5))
     n_cases = 700 if tier == "quick" else 20000
     rep.rule = ("histories (reset / target_measure_dir setter / rank) on one ranker object per case, over every ranker class exported by "
                 "ribs.emitters.rankers, archives Grid/CVT/SlidingBoundaries/Proximity (+ a GridArchive subclass with compute_density, + a "
